@@ -12,7 +12,7 @@ LEVEL = "exploration"
 RULE = ("cases = (funcs) the real SpatialBeamFunctionals group (tube and wingbox, exact and KS failure, upper-skin strength "
         "factor 0.5..2) fed with random beam geometries, random displacement fields, rigid-body motions and scaled copies; "
         "(ks) FailureKS/FailureExact fed with stress fields of magnitude 0..1e12 Pa, N up to 400 entries, yield 1e6..1e9, "
-        "aggregation parameter rho 1..1000 passed as component option; (closed) straight cantilevers solved by the real "
+        "aggregation parameter rho 1..1e4 passed as component option; (closed) straight cantilevers solved by the real "
         "SpatialBeamAlone FEM under pure axial force, tip moments and torque against closed-form stresses from the model's "
         "own section properties; (coupled) converged aerostructural points.  Non-trivial = non-zero stresses and all "
         "families of the kind evaluated")
@@ -38,7 +38,7 @@ def cases(tier, seed):
         fem = "tube" if k % 2 else "wingbox"
         ncrit = 2 if fem == "tube" else 4
         ne = int(rng.choice([1, 2, 5, 20, 100, 400 // ncrit]))
-        out.append(dict(kind="ks", fem=fem, ne=ne, seed=int(rng.integers(1 << 30)), rho=float(np.round(10 ** rng.uniform(0, 3), 3)) if k % 5 else 100.0,
+        out.append(dict(kind="ks", fem=fem, ne=ne, seed=int(rng.integers(1 << 30)), rho=(float(np.round(10 ** rng.uniform(0, 3), 3)) if k % 5 else 100.0) if k % 6 != 3 else float(rng.choice([720.0, 1000.0, 3000.0, 1e4])),
                         logmag=float(rng.uniform(-3, 12)) if k % 7 else 12.0, logyield=float(rng.uniform(6, 9)),
                         pattern=str(rng.choice(["random", "equal", "one_peak", "zeros", "two_close"]))))
     n = 16 if tier == "quick" else 300
